@@ -313,6 +313,8 @@ func (r *binaryReader) StepOut() error {
 	}
 
 	if err := r.bits.StepOut(); err != nil {
+		// The stream is no longer positioned consistently with the reader's context.
+		r.err = err
 		return err
 	}
 
